@@ -20,9 +20,12 @@ theorem C14_reset_like_fresh (s : BS) (cfg : Config) (root : Val) :
   rw [C14_reset_is_init]
   unfold buildFrom
   simp only [initBS]
-  generalize buildVal (startBuffer { clustering := cfg.clustering } cfg.blockAlign cfg.withSize) root = r
-  obtain ⟨s1, rr⟩ := r
-  simp [endBuffer]
+  cases preFields cfg root with
+  | some fields => rfl
+  | none =>
+    generalize buildVal (startBuffer { clustering := cfg.clustering } cfg.blockAlign cfg.withSize) root = r
+    obtain ⟨s1, rr⟩ := r
+    simp [endBuffer]
 
 /-- and the header of a buffer created without `start_buffer` (`<struct>_create_as_root`), which reads the builder's
 block alignment -/
